@@ -185,9 +185,12 @@ impl MonoMidiReceiver {
         self.held_down_notes.retain(|n| *n != note);
 
         if self.held_down_notes.is_empty() {
+            // a stray note-off while the gate is already low is not a falling edge
+            if self.gate {
+                self.falling_gate = true;
+            }
             self.gate = false;
             self.rising_gate = false;
-            self.falling_gate = true;
         } else {
             // we know that there is at least one element in the vec
             self.note_num = self.choose_next_note();
